@@ -237,6 +237,36 @@ theorem C10_cursor_push (h : Heap) (pre : List Nat) (p : Nat) (post : List Nat) 
     intro j hj
     exact v2 j (hne j (by simp [hj]))
 
+/-- `Add(vs...)` = `Push; Next` per value: the values are inserted in order at the cursor's position and
+the cursor ends up behind them, on the element it pointed to before (position `i + |vs|`). -/
+theorem C10_cursor_add : ∀ (vs : List Int) (h : Heap) (pre : List Nat) (p : Nat) (post : List Nat),
+    WF h (pre ++ p :: post) →
+    ∃ h1 pre1 p1, add h p vs = .ok (h1, p1) ∧ WF h1 (pre1 ++ p1 :: post) ∧
+      pre1.length = pre.length + vs.length ∧
+      abs h1 (pre1 ++ p1 :: post) =
+        (abs h (pre ++ p :: post)).take pre.length ++ vs ++ (abs h (pre ++ p :: post)).drop pre.length := by
+  intro vs
+  induction vs with
+  | nil =>
+    intro h pre p post hw
+    exact ⟨h, pre, p, rfl, hw, rfl, by simp⟩
+  | cons v vs ih =>
+    intro h pre p post hw
+    obtain ⟨h1, n, e1, w1, a1⟩ := C10_cursor_push h pre p post v hw
+    have hn := next_cell h1 pre p n post w1.seg w1.nodup
+    have w1' : WF h1 ((pre ++ [p]) ++ n :: post) := by simpa using w1
+    obtain ⟨h2, pre2, p2, e2, w2, l2, a2⟩ := ih h1 (pre ++ [p]) n post w1'
+    refine ⟨h2, pre2, p2, by simp [add, e1, hn, e2], w2, by simp at l2 ⊢; omega, ?_⟩
+    rw [a2]
+    have hA : abs h1 (pre ++ [p] ++ n :: post) = abs h1 (pre ++ p :: n :: post) := by simp
+    rw [hA, a1]
+    have hlen : ((abs h (pre ++ p :: post)).take pre.length ++ [v]).length = (pre ++ [p]).length := by
+      rw [(take_drop_split h pre p post).1]; simp
+    have hsplit : (abs h (pre ++ p :: post)).take pre.length ++ v :: (abs h (pre ++ p :: post)).drop pre.length =
+        ((abs h (pre ++ p :: post)).take pre.length ++ [v]) ++ (abs h (pre ++ p :: post)).drop pre.length := by simp
+    rw [hsplit, List.take_left' hlen, List.drop_left' hlen]
+    simp
+
 theorem C10_cursor_remove (h : Heap) (pre : List Nat) (p t : Nat) (post : List Nat)
     (hw : WF h (pre ++ p :: t :: post)) :
     ∃ h1, remove h p = .ok (h1, (abs h (pre ++ p :: t :: post)).getD pre.length 0) ∧
